@@ -420,33 +420,69 @@ theorem Stops_isHexLower_printAddrs (w : Nat) (as : List Nat) : Stops isHexLower
   | nil => simp [printAddrs]
   | cons a as => rw [printAddrs_cons]; simp; decide
 
-theorem findHexAux_printAddrs (w : Nat) (as : List Nat) :
-    ∀ f, (printAddrs w as).length < f → findHexAux f (printAddrs w as) = as.map (hexPad w) := by
-  induction as with
-  | nil => intro f h; cases f <;> simp [printAddrs, findHexAux]
-  | cons a as ih =>
-    intro f h
-    rw [printAddrs_cons] at h ⊢
-    simp only [List.length_cons, List.length_append] at h
-    match f, h with
-    | f+2, h =>
-      have e1 : stripPrefix [48, 120] (32 :: 48 :: 120 :: (hexPad w a ++ printAddrs w as)) = none := by
-        simp [stripPrefix]
-      have e2 : stripPrefix [48, 120] (48 :: 120 :: (hexPad w a ++ printAddrs w as)) = some (hexPad w a ++ printAddrs w as) :=
-        stripPrefix_append [48, 120] _
-      simp only [findHexAux, e1, e2]
-      rw [takeWhile_append_stops (hexPad_isHexLower w a) (Stops_isHexLower_printAddrs w as),
-          dropWhile_append_stops (hexPad_isHexLower w a) (Stops_isHexLower_printAddrs w as)]
-      have hne : (hexPad w a).isEmpty = false := by
-        cases hq : hexPad w a with
-        | nil => exact absurd hq (hexPad_ne_nil w a)
-        | cons _ _ => rfl
-      simp only [hne, Bool.false_eq_true, if_false, List.map_cons]
-      congr 1
-      exact ih f (by omega)
+/-! `findHex` (state machine) on printed address lists -/
+theorem hexRestart_of_ne {b : UInt8} (h : b.toNat ≠ 48) : hexRestart b = .s0 := by simp [hexRestart, h]
 
-theorem findHex_printAddrs (w : Nat) (as : List Nat) : findHex (printAddrs w as) = as.map (hexPad w) :=
-  findHexAux_printAddrs w as _ (by omega)
+theorem isHexLower_toNat {b : UInt8} (h : isHexLower b = false) : b.toNat ≠ 48 := by
+  intro e
+  have : b = 48 := UInt8.toNat_inj.1 (by simpa using e)
+  subst this; revert h; decide
+
+theorem findHexGo_digits (ds R acc : Str) (hd : ∀ b ∈ ds, isHexLower b = true) :
+    findHexGo (ds ++ R) (.s3 acc) = findHexGo R (.s3 (ds.reverse ++ acc)) := by
+  induction ds generalizing acc with
+  | nil => rfl
+  | cons b ds ih =>
+    simp only [List.cons_append, findHexGo, hd b (by simp), if_true]
+    rw [ih (b :: acc) (fun x hx => hd x (by simp [hx]))]
+    simp
+
+theorem findHexGo_s3_stop (R acc : Str) (hR : Stops isHexLower R) :
+    findHexGo R (.s3 acc) = acc.reverse :: findHexGo R .s0 := by
+  cases R with
+  | nil => simp [findHexGo]
+  | cons c t =>
+    have hc : isHexLower c = false := (Stops_cons _ c t).1 hR
+    simp [findHexGo, hc]
+
+theorem findHexGo_s2_digits (ds R : Str) (hne : ds ≠ []) (hd : ∀ b ∈ ds, isHexLower b = true) (hR : Stops isHexLower R) :
+    findHexGo (ds ++ R) .s2 = ds :: findHexGo R .s0 := by
+  cases ds with
+  | nil => exact absurd rfl hne
+  | cons d ds =>
+    simp only [List.cons_append, findHexGo, hd d (by simp), if_true]
+    rw [findHexGo_digits ds R [d] (fun x hx => hd x (by simp [hx])), findHexGo_s3_stop _ _ hR]
+    simp
+
+theorem findHexGo_printAddrs (w : Nat) (as : List Nat) (C : Str) (hC : Stops isHexLower C) :
+    findHexGo (printAddrs w as ++ C) .s0 = as.map (hexPad w) ++ findHexGo C .s0 := by
+  induction as with
+  | nil => simp [printAddrs]
+  | cons a as ih =>
+    rw [printAddrs_cons]
+    have hS : Stops isHexLower (printAddrs w as ++ C) := by
+      cases as with
+      | nil => simpa [printAddrs] using hC
+      | cons a' as' => rw [printAddrs_cons]; simp; decide
+    have e : findHexGo (32 :: 48 :: 120 :: (hexPad w a ++ printAddrs w as) ++ C) .s0
+        = findHexGo (hexPad w a ++ (printAddrs w as ++ C)) .s2 := by
+      simp [findHexGo, hexRestart]
+    rw [e, findHexGo_s2_digits _ _ (hexPad_ne_nil w a) (hexPad_isHexLower w a) hS, ih]
+    simp
+
+/-- bytes that cannot take part in a hex literal keep the scanner in its start state -/
+theorem findHexGo_skip (A S : Str) (hA : ∀ b ∈ A, b.toNat ≠ 48) : findHexGo (A ++ S) .s0 = findHexGo S .s0 := by
+  induction A with
+  | nil => rfl
+  | cons b A ih =>
+    simp only [List.cons_append, findHexGo, hexRestart_of_ne (hA b (by simp))]
+    exact ih (fun x hx => hA x (by simp [hx]))
+
+theorem findHexGo_none (A : Str) (hA : ∀ b ∈ A, b.toNat ≠ 48) : findHexGo A .s0 = [] := by
+  simpa [findHexGo] using findHexGo_skip A [] hA
+
+theorem findHex_printAddrs (w : Nat) (as : List Nat) : findHex (printAddrs w as) = as.map (hexPad w) := by
+  simpa [findHex, findHexGo] using findHexGo_printAddrs w as [] (by simp)
 
 theorem parseHexList_map (w : Nat) (as : List Nat) (h : ∀ a ∈ as, a < two64) :
     parseHexList (as.map (hexPad w)) = some as := by
